@@ -51,7 +51,13 @@ func regexAtom(s string) string {
 
 // Num renders a numeric literal the way the properties compare it: to six
 // significant digits.
-func Num(v float64) string { return fmt.Sprintf("%.6g", v) }
+func Num(v float64) string {
+	if v < 0 {
+		// a parser that folds the sign into the literal builds the same grouping
+		return "(u- " + fmt.Sprintf("%.6g", -v) + ")"
+	}
+	return fmt.Sprintf("%.6g", v)
+}
 
 // Sexpr prints an expression of the real syntax tree as an S-expression;
 // grouping nodes are skipped.
